@@ -6,15 +6,16 @@ META = {
     "decided": [
         "09.a on the lunar-hour route, for all 60 day pillars x 24 hours: hour branch = floor((h+1)/2) mod 12, hour stem by Five Rats from the day stem, and from 23:00 the day pillar used is the next day's",
         "09.c instant-level view (SixtyCycleHour::from_solar_time): the day pillar it reports is the next day's from 23:00; its hour pillar has branch floor((h+1)/2) mod 12 and the Five-Rats stem of that rolled day pillar; its year pillar turns at the Lichun instant and its month pillar at each Jie instant (given the instant's term)",
+        "09.d composition: SixtyCycleHour::get_eight_char and the default provider store exactly the view's year, month, day and hour pillars in that order, the LunarSect2 provider the same with the lunar day's own (unrolled) day pillar; EightChar's four getters return what was stored",
         "09.b LunarHour::new refuses hour > 23, minute > 59, second > 59 before it builds the day",
     ],
-    "outside": ["eight characters = the four pillars of the instant (composition: EightChar::from_sixty_cycle stores what it is given)",
-                "that the lunar year of an instant is the civil year or the one before and that the instant's term is the right one (taken as given by 09.c)",
+    "outside": [                "that the lunar year of an instant is the civil year or the one before and that the instant's term is the right one (taken as given by 09.c)",
                 "the inverse search EightChar::get_solar_times (nested loops over 60-year cycles and term instants)"],
     "assumptions": [
         "09.a: the day pillar is an arbitrary pillar (LunarDay::get_sixty_cycle replaced by Obj(p), p in 0..59); its value as a function of the date is 07.c",
         "engine B object model: axioms A-index, A-pillar, A-name, A-format; listed per kernel in the evidence",
         "09.c: instants are numbers ordered per C12 12.c; the lunar hour's pillar satisfies 09.a; the first lunar month's pillar obeys Five Tigers (08.b)",
+        "09.d: the four pillars reported by the instant-level view are arbitrary pillars (their values are 09.c / 08 / 07); which provider is installed process-wide is not decided (both shipped providers are)",
         "09.b: LunarDay::from_ymd replaced by a stub that fails if reached; fmt_empty",
     ],
 }
@@ -29,4 +30,4 @@ def engine_b(tier, seed, scr):
     eng, err = engine(scr, "09.a/B/hour-pillar", "09.a")
     if eng is None:
         return err
-    return [pillars.k_hour_pillar(eng), pillars.k_day_view(eng, True)]
+    return [pillars.k_hour_pillar(eng), pillars.k_day_view(eng, True)] + [pillars.k_compose(eng, w) for w in ("instant", "default", "sect2", "getter-year", "getter-month", "getter-day", "getter-hour")]
